@@ -392,9 +392,11 @@ def build_instances(tier):
         for pl in plens:
             for ipsec in ('esp', 'ah'):
                 for mode in (0, 1):
-                    for alg in (('aes256_sha256',) if tier == 'quick' else tuple(ALGS)):
+                    for alg in (('aes256_sha256', 'aes256_sha512') if tier == 'quick' else tuple(ALGS)):
                         if tier == 'quick' and (mode == 0) != (ipsec == 'esp') and pl != plens[0]:
                             continue
+                        if tier == 'quick' and alg == 'aes256_sha512' and (pl != plens[0] or mode == 0):
+                            continue        # the 64-byte key fills the whole key field of the request: one ESP and one AH instance per family
                         inst.append(Instance(f'create_sa v{version} {ipsec} mode={mode} {alg} /{pl[0]},/{pl[1]}', h_create_sa, (version, ipsec, mode, alg, pl),
                                              native=nat(h_create_sa)))
             for direction in (0, 1, 2):
